@@ -132,6 +132,27 @@ def scenario_history(tape, out):
                 out.violate("stop-not-propagated", f"stop-raised:{type(e).__name__}", f"stop() on {st.layers[stop_layer][0]} in {spec}: {e!r}")
             stopped = True
             _check_stop(out, st, spec, st.layers[stop_layer])
+            if tape.chance("program", 1, 3, "late-wrap"):
+                # one more adapter put around an already stopped result (what ConcurrentTestSuite does for a
+                # sub-suite that a lazy make_tests yields late): wrapping is not a reset
+                how = tape.choice("program", ("tfr", "e2o", "multi", "tagger", "trd"), "late-wrapper")
+                under = st.layers[tape.draw("program", len(st.layers), "late-wrap-over")][1]
+                try:
+                    late = {"tfr": lambda: ThreadsafeForwardingResult(under, threading.Semaphore(1)),
+                            "e2o": lambda: ExtendedToOriginalDecorator(under),
+                            "multi": lambda: MultiTestResult(under),
+                            "tagger": lambda: Tagger(under, {"late"}, set()),
+                            "trd": lambda: TestResultDecorator(under)}[how]()
+                except Exception as e:   # noqa
+                    out.violate("adapter-raised", f"late-wrap:{how}:{type(e).__name__}", f"wrapping {type(under).__name__} in {how} raised {e!r}; stack {spec}")
+                else:
+                    before = len(out.violations)
+                    _check_stop(out, st, spec, st.layers[stop_layer])
+                    for v in out.violations[before:]:
+                        v.key = "after-late-wrap:" + v.key
+                    if any(t.shouldStop for t in _terminals_below(under)) and not late.shouldStop:
+                        out.violate("stop-not-propagated", f"after-late-wrap:{how}:wrapper-reads-false", f"{how} built over a stopped {type(under).__name__} reads shouldStop False; stack {spec}")
+                out.probe("late-wrap:" + how)
         try:
             c = rep.step()
         except Exception as e:   # noqa
